@@ -297,7 +297,7 @@ def hist_inputs(tier, rng):
             yield _hist(GEOMS[n % 4], [["new", "ctor", ms], ["touch", 0, [SEL_NAMES[n % 14], SEL_NAMES[(n // 14) % 14]], n % 2 == 0],
                                        ["edit", EDIT_ROUTES[n % 8], 0, [[n % 3, (n // 3) % 3]], "flip", 0], _read(rng, 0, "views", n % 2 == 0)])
     # ---- F: random programs (one preferred kernel per history, so that the same call is repeated across edits)
-    for j in range(2500 if big else 150):
+    for j in range(1500 if big else 150):
         steps = [["new", rng.choice(NEW_ROUTES[:5]), _rows(rng, big)]]
         hk = rng.choice(HKS)
         def kk(): return hk if rng.random() < 0.75 else rng.choice(HKS)
